@@ -122,7 +122,28 @@ def run(ctx):
         ctx.note("recursive-consumer phase skipped: violations were already found by the walk / interleaving phases")
         rc, out, err = 0, '{"summary": true, "messages": 0, "stats": {}}', ""
     else:
-        rc, out, err = gobuild.run_driver(ctx, drv, ["consumers", cyc], timeout=3400)
+        wf2 = os.path.join(sd, "consumerwork.ndjson")
+        rc, out, err = gobuild.run_driver(ctx, drv, ["consumers", cyc, wf2], timeout=3400)
+        if rc == 0:
+            # the work bound of the depth limit, judged by TLC (spec/limit/ConsumerBound.tla)
+            with open(wf2) as f:
+                wlines = f.readlines()
+            if wlines:
+                rw = tlc.run(ctx, sd, "ConsumerBound", cfg="ConsumerBound.cfg", workers=1, timeout=1800, stack=True)
+                cons = rw.tagged("CONSUMED")
+                if not cons or cons[0]["n"] != len(wlines):
+                    raise Inconclusive("ConsumerBound consumed %s of %d records" % (cons, len(wlines)))
+                states += rw.distinct
+                seenw = set()
+                for b in rw.tagged("WORKBAD"):
+                    rec = json.loads(wlines[b["line"] - 1])
+                    key = (rec["consumer"], b["what"])
+                    if key in seenw:
+                        continue
+                    seenw.add(key)
+                    ctx.violation("consumers:work:%s" % rec["consumer"], "%s: %s on a message of %d words with DepthLimit %d and TraverseLimit %d used %d bytes of budget and produced %d bytes" % (
+                        b["what"], rec["consumer"], rec["w"], rec["d"], rec["t"], rec["used"], rec["produced"]), rec)
+                ctx.cover(consumer_work_records=len(wlines))
     if rc != 0:
         ctx.violation("consumers:fatal", "recursive consumer killed the process on a cyclic message with small limits: %s" % err[:1500], {"stderr": err[:4000]})
         s3 = {"messages": ncyc, "stats": {}}
@@ -135,7 +156,7 @@ def run(ctx):
               interleavings_forced=len(scheds), cyclic_messages=ncyc,
               rule="walks: every access path of <= MaxSteps over EncGen messages x every depth limit x every boundary budget (prefix sums of charges, +-8); "
                    "interleavings: every terminated behaviour of ReadLimitSched (2 readers, 2-3 reads) forced through the canRead yield gate; "
-                   "consumers: walk/Equal/Canonicalize/deep copy/text on every message whose value is cyclic or deeper than 6, T in {64,4096,2^16}, D in {1,2,5,64}",
+                   "consumers: walk/Equal/Canonicalize/deep copy/text on every message whose value is cyclic or deeper than 6, T in {64,4096,2^16,2^22}, D in {1,2,5,64}; budget used and bytes produced by Equal/Canonicalize/deep copy/text against the bound of ConsumerBound.tla",
               exhaustive=True)
     if walks:
         ctx.sample({"walk": walks[len(walks) // 2]})
